@@ -132,7 +132,7 @@ def run(env, rep):
                 why.append("constant format %s is used on a path that is not a continuation chunk" % fmt)
         for t in p:
             if t[0] == "call" and t[1].endswith("get_header_format") and len(t[2]) >= 2:
-                if not re.match(r"^&\*?HashMap::get\(load\(\*?_?\.?.*previous_headers\),call\(serializer::get_csid_for_message_type\)\) as Some\.0$", t[2][1]):
+                if not re.match(r"^&?\*?HashMap::get\(load\(\*?_?\.?.*previous_headers\),call\(serializer::get_csid_for_message_type\)\) as Some\.0$", t[2][1]):
                     ok_prev = False
                     why.append("get_header_format compares with %s" % t[2][1][:120])
     rep.check("C07.R3", "compress:only-vs-stored-header", ok_cont and ok_prev, "compressed formats come from the comparison with previous_headers[csid] or are Empty on continuation chunks",
